@@ -137,3 +137,6 @@ add("r20_4_threshold", "C20", "R20.4", "try_into::<u32>",
 
 add("r18_2_halfeven_incl", "C18", "R18.2", "HalfEven",
     [("float/src/round.rs", "        let incl = !f.repr.significand.bit(0) || (B % 2 == 0 && f.repr.digits() < f.precision());", "        let incl = f.repr.significand.bit(0);")])
+
+add("r13_4_one_mod1", "C13", "R13.4", "ReducedWord::one",
+    [("integer/src/modular/repr.rs", "        if one == ring.normalized_divisor() {\n            // the only residue modulo 1 is zero\n            Self(0)\n        } else {\n            Self(one)\n        }", "        Self(one)")])
